@@ -43,6 +43,14 @@ def hostile_screen_kwargs(rng, n=None, arity=None, max_names=6):
     td = np.array([[d_pool[int(rng.integers(len(d_pool)))] for _ in range(arity)] for _ in range(n)], dtype=float).reshape(n, arity)
     sn = np.array([s_pool[int(rng.integers(len(s_pool)))] for _ in range(n)], dtype=str)
     pn = np.array([p_pool[int(rng.integers(len(p_pool)))] for _ in range(n)], dtype=str)
+    if arity >= 2 and rng.random() < 0.2:
+        # the same values in another memory layout: column-major arrays (np.array([col_a, col_b]).T,
+        # DataFrame[[...]].to_numpy()) are what callers who build the table column by column hand over
+        which = int(rng.integers(0, 3))
+        if which in (0, 2):
+            tn = np.asfortranarray(tn)
+        if which in (1, 2):
+            td = np.asfortranarray(td)
     kw = dict(treatment_names=tn, treatment_doses=td, sample_names=sn, plate_names=pn, control_treatment_name=control)
     mode = int(rng.integers(0, 4))
     if mode >= 1:
@@ -73,8 +81,10 @@ def realistic_screen_kwargs(
     arity=2,
     singletons=0.0,
     unicode_names=False,
+    tiny_doses=False,
 ):
     """Arity-2 (or 1) combination screen with unique observation tags.
+    tiny_doses: doses in molar units (1e-10 ...), some of which differ only far behind the decimal point.
     unicode_names: every sample / treatment / plate name (not the control name) gets a non-ASCII suffix.
 
     observed: None -> all rows observed (mask all true); "none" -> no plate observed;
@@ -88,6 +98,8 @@ def realistic_screen_kwargs(
     samples = ["s%02d" % i for i in range(ns)]
     drugs = ["d%02d" % i for i in range(nd)]
     doses = [float(x) for x in (0.1, 1.0, 10.0, 0.5, 2.0)[:ndo]]
+    if tiny_doses:
+        doses = [float(x) for x in (1e-10, 3e-10, np.nextafter(1e-10, 1.0), 2.5e-10, 1e-10 + 1e-19)[: max(2, ndo)]]
     rows = []
     for _ in range(n):
         s = samples[int(rng.integers(ns))]
